@@ -2,6 +2,8 @@
 and selection laziness (3.5), all decided on the op facts of the interpreter."""
 from __future__ import annotations
 
+import ast
+
 from typing import Dict, List, Set, Tuple
 
 from .facts import Run, normal, op_targets
@@ -217,6 +219,20 @@ def rule_KC(run: Run) -> RuleResult:
                     bad.add(c)
                     if c not in evaluated_any:
                         evaluated_any.append(c)
+        # (6) a part whose evaluation failed on this path is not asked for its keys (unless the question is asked under a handler of its
+        # own): evaluation mostly fails because an option is missing, and then keys() of the part fails as well — keys(o) would fail
+        # where evaluate(o) and validate(o), which fell back on another part, succeed
+        for k in kpaths:
+            failed_parts = []
+            for e in k.events:
+                if e.kind == "op" and e.op == "evaluate" and e.failed and isinstance(e.target, Child) and not e.via:
+                    failed_parts.append(e.target.path)
+                elif e.kind == "op" and e.op == "keys" and not e.failed and isinstance(e.target, Child) and e.target.path in failed_parts and e.guards:
+                    failed_parts.remove(e.target.path)      # probed under a handler, and the probe went through: its keys can be had
+                elif e.kind == "op" and e.op == "keys" and not e.failed and isinstance(e.target, Child) and e.target.path in failed_parts and not e.guards:
+                    res.add(f"{cls.qualname}:keys:{e.target.path} asked for its keys only where it could be evaluated", False, f, e.line or ln,
+                            f"{cls.name}.keys() asks '{e.target.path}' for its keys (line {e.line}) on a path where evaluating it had just failed", nec)
+                    break
         trivial = not evaluated_any and not keyed_any
         for c in sorted(set(evaluated_any) | bad):
             if c == "<self>":
@@ -355,6 +371,33 @@ def rule_VA(run: Run) -> RuleResult:
     res = RuleResult("R-VA")
     nec = ("a child that evaluate() needs and validate() skips lets validate(o) pass while "
            "evaluate(o) fails for a missing option")
+    # the four operations are defined together: a class that brings its own evaluate() and inherits validate() / keys() / explain() from a
+    # concrete ancestor answers those three for the ancestor's evaluation (a Value subclass that resolves templates in evaluate() still
+    # validates like a constant: validate passes, evaluate fails for the missing option)
+    n_sub = 0
+    for ci in run.repo.classes.values():
+        if ci.module.name.startswith("labrea.mypy") or ci.name == "Evaluatable" or not ci.is_subclass_of("Evaluatable"):
+            continue
+        n_sub += 1
+        if "evaluate" not in ci.methods:
+            continue
+        inherited = []
+        for op in ("validate", "keys", "explain"):
+            fm = ci.find_method(op)
+            if op in ci.methods or fm is None:
+                continue
+            owner_, fn_ = fm[0], fm[1]
+            abstract = any(ast.unparse(d_).split(".")[-1] == "abstractmethod" for d_ in fn_.decorator_list)
+            # ... of an ancestor that is an expression in its own right (it has an evaluate() of its own): a shared base that leaves
+            # evaluate() to its subclasses wrote the three for them
+            ev_ = owner_.find_method("evaluate")
+            own_eval = ev_ is not None and ev_[0].name != "Evaluatable" and not any(ast.unparse(d_).split(".")[-1] == "abstractmethod" for d_ in ev_[1].decorator_list)
+            if not abstract and owner_.name != "Evaluatable" and own_eval:
+                inherited.append(f"{op} from {owner_.name}")
+        res.add(f"{ci.qualname}:defines validate, keys and explain along with its own evaluate", not inherited, ci.module.relpath, ci.methods["evaluate"].lineno,
+                "all four defined together" if not inherited else f"evaluate() is its own, but it inherits {', '.join(inherited)}: those describe the ancestor's evaluation", nec)
+    if n_sub < 25:
+        raise AnalysisError(f"R-VA: only {n_sub} expression classes found")
     for cls in run.node_classes():
         f, ln = _meth_loc(run, cls, "validate")
         vpaths = normal(run.paths(cls, "validate"))
